@@ -13,6 +13,7 @@ import (
 	"math/rand"
 	"regexp"
 	"strconv"
+	"sync"
 
 	"github.com/alibaba/RedisShake/pkg/redis"
 
@@ -116,6 +117,7 @@ type respIn struct {
 	Streams int    `json:"streams"`
 	Mutate  int    `json:"mutate"` // number of encodings to corrupt exhaustively
 	Trace   string `json:"trace"`
+	ConcReps int   `json:"conc_reps"` // encodings per goroutine in the concurrent phase
 }
 
 func respRun(in []byte) (interface{}, error) {
@@ -191,6 +193,57 @@ func respRun(in []byte) (interface{}, error) {
 		encs[i] = out
 		tr.Emit(tracer.Ev{"e": "enc", "val": t, "out": bytesToInts(out)})
 		nenc++
+	}
+	// the encoder from eight goroutines at once (one sender per source encodes concurrently): integers outside the
+	// pre-rendered table, each goroutine with its own digit patterns; an output that differs from the single-threaded
+	// one is handed to the trace validation like any other (the model says what the encoding must be)
+	{
+		var cmu sync.Mutex
+		var cev []tracer.Ev
+		var wg sync.WaitGroup
+		for g := 0; g < 8; g++ {
+			wg.Add(1)
+			go func(g int) {
+				defer wg.Done()
+				base := []int64{int64(g+1) * 1111111111111111, -int64(g+1) * 111111111, 524288 + int64(g), math.MaxInt64 - int64(g), math.MinInt64 + int64(g), -1025 - int64(g)}
+				var ts []rv
+				var want [][]byte
+				for k := range base {
+					a := []rv{}
+					for j := 0; j < 3; j++ {
+						a = append(a, mkrv("int", false, []byte(strconv.FormatInt(base[(k+j)%len(base)], 10)), nil))
+					}
+					t := mkrv("arr", false, nil, a)
+					ts = append(ts, t)
+					w := []byte("*3\r\n")
+					for _, x := range a {
+						w = append(append(append(w, ':'), x.bytes()...), '\r', '\n')
+					}
+					want = append(want, w)
+				}
+				resps := make([]redis.Resp, len(ts))
+				for k := range ts {
+					resps[k] = ts[k].toResp()
+				}
+				for rep := 0; rep < cfg.ConcReps; rep++ {
+					k := rep % len(ts)
+					out, err := redis.EncodeToBytes(resps[k])
+					if err != nil || !bytes.Equal(out, want[k]) || rep == cfg.ConcReps-1 {
+						cmu.Lock()
+						cev = append(cev, tracer.Ev{"e": "enc", "val": ts[k], "out": bytesToInts(out), "src": "concurrent"})
+						cmu.Unlock()
+						if err != nil || !bytes.Equal(out, want[k]) {
+							return
+						}
+					}
+				}
+			}(g)
+		}
+		wg.Wait()
+		for _, ev := range cev {
+			tr.Emit(ev)
+			nenc++
+		}
 	}
 	hugeLen := regexp.MustCompile(`[$*][+-]?[0-9]{8,}`)
 	decode := func(stream []byte, kind string) {
